@@ -29,6 +29,7 @@ DECIDED = [
     "R-C03-UNCHANGED (limit exit): the message held when the message budget stops the loop is rejected and its permit released (C10's gate reused)",
     "R-C03-SHUTDOWN / R-C03-FINISH (round 6): no asyncio.shield where stopping relies on cancellation; finish() returns only what the consumer still holds (C14 reused); RabbitMQ finish(): stop accepting, cancel the subscription, drain and reject known tags",
     "R-C03-AWAITED: in the files this property is anchored in, no bare statement calls a coroutine function (the operation would never run)",
+    "R-C03-HANDOFF / R-C03-MAINT (Redis sweep rules): claim flow, lifecycle and defaults-only-when-missing of the Redis package under this property",
 ]
 NOT_DECIDED = ["the timing bound of run() (graceful period + slack)", "interleavings of the runner's own tasks (rejects still in flight when run() returns)", "process-death semantics of the servers"]
 ASSUMPTIONS = ["asyncio: awaits are the only cancellation points", "a cancelled awaiter cancels the awaited child task"]
@@ -38,6 +39,12 @@ def run(ctx: Ctx) -> None:
     from .shared import every_operation_awaited
 
     every_operation_awaited(ctx, "R-C03-AWAITED")  # in the files this property is anchored in, no asynchronous operation is created and dropped
+    from .brokers import redis_lifecycle
+
+    redis_lifecycle(ctx, "R-C03-HANDOFF")  # Redis consumer: poll task, pause lock protocol, gate, hand-over
+    from .brokers import redis_claim_flow
+
+    redis_claim_flow(ctx, "R-C03-HANDOFF")  # the Redis take, guard by guard (no name -> nothing claimed; claimed -> removed from the right structure, marked, data read; complete data only)
     from .brokers import redis_defaults_only_when_missing
 
     redis_defaults_only_when_missing(ctx, "R-C03-MAINT")
